@@ -136,7 +136,9 @@ func c01Compare(x *explore.Ctx, n ref.Node, input interface{}, wild bool) {
 	}
 	x.Validated()
 	ok := false
-	if wild && werr == nil && !ref.IsUndef(want) && got.Kind == impl.Value {
+	// the order in which * and ** visit the members of an object with several members is Go's map order
+	// (unspecified); with at most one member per object the document order is fixed and compared exactly
+	if wild && c01MaxMembers(input) > 1 && werr == nil && !ref.IsUndef(want) && got.Kind == impl.Value {
 		ok = impl.Equal(sortDeep(ref.Norm(want)), sortDeep(got.Val))
 	} else {
 		ok, _ = agrees(got, want, werr)
@@ -153,6 +155,26 @@ func c01Compare(x *explore.Ctx, n ref.Node, input interface{}, wild bool) {
 		x.Nontrivial()
 	}
 	x.Sample(func() string { return prog + " on " + in })
+}
+
+func c01MaxMembers(v interface{}) int {
+	m := 0
+	switch x := v.(type) {
+	case []interface{}:
+		for _, e := range x {
+			if k := c01MaxMembers(e); k > m {
+				m = k
+			}
+		}
+	case map[string]interface{}:
+		m = len(x)
+		for _, e := range x {
+			if k := c01MaxMembers(e); k > m {
+				m = k
+			}
+		}
+	}
+	return m
 }
 
 // c01Build assembles the program: head kind 0 relative, 1 "$." , 2 "$$.", 3..5 a variable bound to a / $ / a nested literal.
